@@ -1,11 +1,28 @@
 SPEC = {
     "id": "C20",
-    "n": {"quick": 400, "thorough": 30000},
-    "components": {"1": "an observed atomic operation is not an enabled step of the model", "2": "program counter after an operation (CAS / Swap outcome, select branch)",
-                   "3": "len(limiter.ch) after an operation", "4": "len(limiter.ch) at the end of the run", "5": "every call returned",
-                   "6": "tokens obtainable after every release function was called", "7": "harness saw over-admission, model did not"},
-    "corr_name": "Limiter.Model (step, replay) vs concurrencylimiter.go (Acquire, release, block)",
-    "trusted_base": [],
-    "assumptions": [],
-    "manifest": {"text": "", "note": "", "technique": ""},
+    "n": {"quick": 900, "thorough": 30000},
+    "components": {"1": "an observed atomic operation is not an enabled step of the model (or the hook sequence does not have the shape of the modelled code)",
+                   "2": "program counter after an operation (outcome of Swap / CompareAndSwap, branch taken by Acquire's select)",
+                   "3": "len(limiter.ch) after an operation", "4": "len(limiter.ch) at the end of the run", "5": "every call returned (quiescence)",
+                   "6": "tokens obtainable without blocking after every release function was called",
+                   "7": "the harness counted more than limit goroutines in their critical sections although the model's acquired holders stayed within the limit"},
+    "corr_name": "Limiter.Model (step / replay, both orders of block's re-acquire) vs concurrencylimiter.go (Acquire, holder.release, holder.block) driven one atomic operation at a time through the verifhook points",
+    "harness_timeout": {"quick": 900, "thorough": 7200},
+    "trusted_base": [
+        "Coq 8.16.1 kernel and vm_compute (no native_compute); Print Assumptions of all 8 theorems: closed under the global context",
+        "hand-written transition system coq/theories/Limiter/Model.v (one label per channel send/receive, Swap, CompareAndSwap, ctx.Done branch; maximally general client), tied to concurrencylimiter.go by the trace-conformance check only",
+        "Go harness harness/cmd/c20 + harness/pkg/sched (controlled scheduler that runs one goroutine at a time between hook points, free-running recorder with holds, program generator, oracle, Coq term printer); the verifhook call sites (patches/C20-hooks.patch) stand immediately before each atomic operation",
+        "Go runtime: sync/atomic operations and channel operations are atomic and channels of capacity n hold at most n elements; the Go memory model; fairness of channel wake-ups is not modelled",
+    ],
+    "assumptions": [
+        "atomicity granularity: each channel operation, Swap and CompareAndSwap is one step; everything else in the three functions is goroutine-local",
+        "the client is arbitrary: any goroutine may call Acquire, any existing holder's release function, or TemporarilyRelease on any existing holder, at any time and any number of times; contexts may be cancelled at any time",
+        "liveness is proved as enabledness (receives never wait; Swap/CAS always enabled; Acquire on a cancelled or limiter-less context has an enabled returning step), not as a temporal property of the Go scheduler",
+        "the theorems are about the repaired order of block's re-acquire (patches/C20-fix-1.patch); the original order is kept in the model (fx = false) and refuted by running_le_limit_original_refuted",
+    ],
+    "manifest": {
+        "text": "Coq theorems (Props/C20.v) over a labelled transition system of the limiter (one label per atomic operation, arbitrary client) hold for every capacity, every schedule and every reachable state: the channel holds exactly one token per acquired holder plus one per call in transit, at most n holders are acquired / running / believed running, release is idempotent and final, at quiescence the channel holds exactly the unreleased holders' tokens, receives never wait, Acquire on a cancelled or limiter-less context returns. On every run a Go harness generates client programs and schedules (seeded, one atomic operation at a time through verifhook points, plus scripted witness schedules and free-running executions with holds), replays every observed operation, outcome and channel length through the Coq model, and evaluates the property directly on the implementation (critical-section counter <= n, full capacity obtainable at quiescence, every call returns).",
+        "note": "Trusted: Coq kernel + vm_compute; the hand-written model (tied to the code by the trace-conformance check at the granularity of the hook points); the Go harness and its scheduler; atomicity of sync/atomic and channel operations. Fairness of Go's channel wake-ups and data races below the granularity of one atomic operation are outside the model. Free-running executions are checked by the oracle only (no linearisation search).",
+        "technique": "Coq proof (invariants by induction over label lists) over an executable LTS + trace-conformance check under a controlled scheduler (vm_compute replay) + property oracle on the implementation",
+    },
 }
